@@ -970,6 +970,16 @@ pub fn snapshot(env: &mut Env<VS>) -> BTreeMap<String, String> {
                     }
                 }
                 m.insert("dispositions".into(), d.join(","));
+                // descriptors open on the controlling terminal device
+                if let Ok(tty) = st.file_system.get("/dev/tty") {
+                    let on_tty: Vec<String> = p
+                        .fds()
+                        .iter()
+                        .filter(|(_, b)| Rc::ptr_eq(b.open_file_description.borrow().inode(), &tty))
+                        .map(|(fd, _)| fd.0.to_string())
+                        .collect();
+                    m.insert("tty_fds".into(), on_tty.join(","));
+                }
                 m.insert("sigmask".into(), format!("{:?}", p.blocked_signals()));
             }
         }
